@@ -70,7 +70,8 @@ func interleaveCheck(c *core.Case, e *entry, v, w any) {
 	report := func(mode string, want, got []byte) {
 		violate(c, "codec:I:"+typ+":TokenReader:depends-on-other-readers", "%s: a reader does not yield what it yields when it is built and consumed alone\nalone:       %s\ninterleaved: %s", mode, qb(want), qb(got))
 	}
-	for _, order := range []string{"built v,w consumed v,w", "built v,w consumed w,v", "built w,v consumed v,w"} {
+	// (built v,w / consumed v,w is what MultiReader does below; the case's two values are exchangeable, so one crossed order suffices)
+	for _, order := range []string{"built v,w consumed w,v"} {
 		var gotV, gotW []byte
 		var e1, e2 error
 		if guard(c, typ, "TokenReader ("+order+")", func() {
